@@ -406,12 +406,15 @@ def gen_line(rng, spec, omit_cmd_suffix=False):
     # render options; an optional-value option without value must not be followed by a positional;
     # adjacent short flags (and a final value option) may be grouped: -ab, -abnVALUE, -abn VALUE
     out = []
+    sems = []                # the token-free meaning of the line, item by item (Lean: Clikit.Parser.Sem)
     group_open = False       # the last token of `out` is a group of short flags that can be extended
     for idx, (kind, it) in enumerate(rendered):
         if kind == "pos":
             out.append(it)
+            sems.append({"pos": it})
             group_open = False
             continue
+        sems.append({"opt": it[1]["long"], "v": it[2] if it[0] == "value" and it[2] != "" else None})
         nxt_is_pos = idx + 1 < len(rendered) and rendered[idx + 1][0] == "pos"
         o = it[1]
         sh = o.get("short")
@@ -433,7 +436,8 @@ def gen_line(rng, spec, omit_cmd_suffix=False):
     if use_dd:
         out.append("--")
         out += pos[n_before:]
-    return out, {"args": intent_args, "opts": intent_opts, "n_given_cmds": n_given_cmds}
+        sems += [{"pos": v} for v in pos[n_before:]]
+    return out, {"args": intent_args, "opts": intent_opts, "n_given_cmds": n_given_cmds, "sems": sems}
 
 
 def _arg_at(args, j):
